@@ -215,6 +215,11 @@ class ModuleLoader:
         if isinstance(x, VRunsList):
             return x.n
         if isinstance(x, VNd):
+            sh = getattr(x, "symshape", None)
+            if sh is not None:
+                if not ctx.branch(zint(sh.rank) >= 1, "array-has-rank"):
+                    interp.raise_("TypeError", "len() of unsized object")
+                return sh.dim(0)
             if x.ndim == 0:
                 interp.raise_("TypeError", "len() of unsized object")
             return x.shape[0]
